@@ -39,6 +39,8 @@ class Source(Stream):
 
     def __init__(self, start=False, **kwargs):
         self.stopped = True
+        # True from the moment start() schedules run() until that run() ends
+        self._running = False
         super().__init__(ensure_io_loop=True, **kwargs)
         self.started = False
         if start:
@@ -58,7 +60,19 @@ class Source(Stream):
         if self.stopped:
             self.stopped = False
             self.started = True
-            self.loop.add_callback(self.run)
+            if not self._running:
+                # otherwise the previous run() has not noticed the stop() yet
+                # and simply carries on: never two polling loops at once
+                self._running = True
+                self.loop.add_callback(self._run_once)
+
+    async def _run_once(self):
+        try:
+            result = self.run()
+            if isawaitable(result):
+                await result
+        finally:
+            self._running = False
 
     async def run(self):
         """This coroutine will be invoked by start() and emit all data
